@@ -274,4 +274,38 @@ theorem C03_code_delegate_GetEarlyBeanReference (procs : List Nat) (hasInst : Bo
 example : Order.getEarlyBeanReference true (fun p => p != 3) (fun p c => some (if p == 1 then c + 1 else c * 2)) [1, 3, 2] 5 =
     ([1, 2], some 12) := by decide
 
+/-! ### KF-C03-1 (D21) in the model: a refused retry leaves a stale partner behind
+
+`M2.lookupAfter` resumes creation for one name after a start (or an earlier lookup) has ended — registries and fields as the
+last run left them.  A LAZY cycle H ⇄ P, H substituted when its early reference is requested AND (by another object) after
+initialization, P's `Init` failing the first time: the first lookup of H fails in P; the second is REFUSED by the
+stale-version check — correctly — but P, completed meanwhile with H's early version, stays published (`failAt` removes the
+cache entries of what was in creation, nothing else); the third lookup of H succeeds, nobody asks for an early reference any
+more, and the after-initialization version is published: P holds ⟨1,1⟩, the lookup gives ⟨1,2⟩.  The full statement of C03
+fails on this history; `C03_no_stale` is about one start. -/
+namespace Retry
+def lazyRing : Scen :=
+  { names := [1, 2], boot := [], eager := [],
+    points := fun n => match n with
+      | 1 => some [⟨[2], false, true, []⟩]
+      | 2 => some [⟨[1], false, true, []⟩]
+      | _ => some [],
+    wired := fun _ => true, logged := fun _ => true, cfgOk := fun _ => true,
+    fBefore := fun _ => false, fAps := fun _ => false, fInit := fun _ => false, fAfter := fun _ => false,
+    fEarly := fun _ => false,
+    earlyO := fun n => if n = 1 then ⟨1, 1⟩ else raw n,
+    afterO := fun n => if n = 1 then ⟨1, 2⟩ else raw n }
+def lazyRingFail : Scen := { lazyRing with fInit := fun n => n == 2 }
+def a0 : St := final lazyRingFail
+def a1 : St := lookupAfter lazyRingFail a0 1
+def a2 : St := lookupAfter lazyRing a1 1
+def a3 : St := lookupAfter lazyRing a2 1
+end Retry
+
+theorem C03_retry_counterexample :
+    Retry.a0.status = .done ∧
+    Retry.a1.status = .failed 2 .refresh ∧ Retry.a1.l1 2 = none ∧
+    Retry.a2.status = .failed 1 .refresh ∧ Retry.a2.l1 2 = some (raw 2) ∧ Retry.a2.fields 2 0 = [⟨1, 1⟩] ∧
+    Retry.a3.status = .done ∧ Retry.a3.l1 1 = some ⟨1, 2⟩ ∧ Retry.a3.fields 2 0 = [⟨1, 1⟩] := by decide
+
 end Ioc.C03
